@@ -83,6 +83,20 @@ def fam_jac_diamond():
     return out
 
 
+def fam_jac_close_delays():
+    """two numeric delays of one variable that differ in the 8th significant digit (they stay two delays)"""
+    out = []
+    for d1, d2 in ((F(23333333, 10 ** 7), F(23333334, 10 ** 7)), (F(1, 2), F(50000001, 10 ** 8))):
+        fp = FP()
+        e1 = X.add(X.mul(X.neg(V('k')), X.mul(V('x'), X.past('x', C(d1)))), X.mul(V('g'), X.call('tanh', X.past('z', C(d2)))))
+        e2 = X.sub(X.mul(V('x'), X.past('x', C(d2))), V('z'))
+        op = OpSpec('dd', [('x', 'de', e1), ('z', 'de', e2)],
+                    {'x': ('state', fp()), 'z': ('state', fp()), 'k': ('const', fp()), 'g': ('const', fp())}, output='x')
+        out.append((f"FJ:close-delays:{float(d1)}:{float(d2)}", ModelSpec('m', {'dd': op}, {'p': NodeSpec(['dd'], {})}, [],
+                                                                         note="numeric delays that differ in the 8th digit")))
+    return out
+
+
 def jac_job(job):
     spec = job['spec']
     out = dict(violations=[], inconclusive=[], obligations=[], src='', jsrc='')
@@ -341,6 +355,9 @@ def run(tier='quick', seed=0, only=None, verbose=False):
             jobs.append(dict(key=f"{k}|sparse", spec=s, solver='euler', sparse=True))
     for k, s in fam_jac_diamond():
         jobs.append(dict(key=f"{k}|euler", spec=s, solver='euler'))
+    for k, s in fam_jac_close_delays():
+        jobs.append(dict(key=f"{k}|scipy", spec=s, solver='scipy'))
+        jobs.append(dict(key=f"{k}|scipy|sparse", spec=s, solver='scipy', sparse=True))
     for pi_, (k, s) in enumerate(progs[:4 if tier == 'quick' else 40]):
         for solver in ('euler', 'heun', 'scipy'):
             jobs.append(dict(key=f"{k}|{solver}|input", spec=s, solver=solver, inputs=['q/o1/u', 'p/nl/r_in'][pi_ % 2]))
